@@ -172,14 +172,25 @@ def rewrite_imports(source_code: str, mapping: MappingType) -> Union[str, None]:
             # Get line numbers
             start_line = node.lineno - 1  # Convert to 0-based index
             end_line = getattr(node, 'end_lineno', node.lineno) - 1
-            replacements.append((start_line, end_line, replacement_lines))
+            # Column offsets are counted in UTF-8 bytes
+            head = lines[start_line].encode('utf-8')[:node.col_offset].decode('utf-8')
+            tail = lines[end_line].encode('utf-8')[node.end_col_offset:].decode('utf-8')
+            if head.strip() or tail.split('#')[0].strip():
+                # Other statements share these physical lines: replace the import only
+                statements = '; '.join(line.rstrip('\n') for line in replacement_lines)
+                replacements.append((start_line, len(head), end_line,
+                                     len(lines[end_line]) - len(tail), [statements]))
+            else:
+                replacements.append((start_line, 0, end_line, len(lines[end_line]),
+                                     replacement_lines))
 
     if len(replacements) == 0:
         return None
 
     # Apply replacements in reverse order to maintain line indices
-    for start_line, end_line, replacement_lines in reversed(replacements):
-        lines[start_line:end_line+1] = replacement_lines
+    for start_line, start_col, end_line, end_col, replacement_lines in reversed(replacements):
+        head, tail = lines[start_line][:start_col], lines[end_line][end_col:]
+        lines[start_line:end_line+1] = [head + ''.join(replacement_lines) + tail]
 
     return ''.join(lines)
 
